@@ -11,6 +11,8 @@ fn main() {
     let mut inp = String::new();
     let mut out = String::new();
     let mut cfg = Config::default();
+    let mut isolate = false; // run every scenario in a child process (statements that may abort, exhaust memory or hang)
+    let mut flush = false;
     let mut i = 1;
     while i < args.len() {
         match args[i].as_str() {
@@ -23,6 +25,8 @@ fn main() {
             "--twice" => cfg.twice = true,
             "--no-state" => cfg.no_state = true,
             "--own-dir" => cfg.own_dir = true,
+            "--isolate" => isolate = true,
+            "--flush" => flush = true,
             "--exact-floats" => vq::val::EXACT_FLOATS.store(true, std::sync::atomic::Ordering::Relaxed),
             "--digest-above" => { cfg.digest_above = Some(args[i + 1].parse().unwrap()); i += 1; }
             x => { eprintln!("unknown arg {}", x); std::process::exit(2); }
@@ -31,6 +35,56 @@ fn main() {
     }
     let scen = vq::read_ndjson(&inp);
     let mut w = BufWriter::new(std::fs::File::create(&out).expect("create out"));
+    if isolate {
+        // one child per scenario: address space limited to 4 GB, 60 s wall clock; what the child logged before it died is
+        // kept, the step it died in is logged with the outcome abort / hang
+        let exe = std::env::current_exe().expect("exe");
+        let pass: Vec<String> = args[1..].iter().filter(|a| a.as_str() != "--isolate").cloned().collect();
+        let dir = tempfile::tempdir().expect("tempdir");
+        let mut n = 0usize;
+        for sc in &scen {
+            let one_in = dir.path().join("in.ndjson");
+            let one_out = dir.path().join("out.ndjson");
+            std::fs::write(&one_in, format!("{}\n", sc)).expect("write scenario");
+            let _ = std::fs::remove_file(&one_out);
+            let mut cmd = format!("ulimit -v 4000000; exec timeout 60 {}", exe.display());
+            let mut k = 0;
+            while k < pass.len() {
+                match pass[k].as_str() {
+                    "--in" => { cmd += &format!(" --in {}", one_in.display()); k += 1; }
+                    "--out" => { cmd += &format!(" --out {}", one_out.display()); k += 1; }
+                    x => cmd += &format!(" {}", x),
+                }
+                k += 1;
+            }
+            cmd += " --flush";
+            let status = std::process::Command::new("sh").arg("-c").arg(&cmd).stderr(std::process::Stdio::null()).status();
+            let text = std::fs::read_to_string(&one_out).unwrap_or_default();
+            let mut last_i = -1i64;
+            for line in text.lines() {
+                if let Ok(v) = serde_json::from_str::<serde_json::Value>(line) {
+                    last_i = v["i"].as_i64().unwrap_or(last_i);
+                    vq::write_line(&mut w, &v);
+                    n += 1;
+                }
+            }
+            let code = status.ok().and_then(|s| s.code());
+            if code != Some(0) {
+                let steps = sc["steps"].as_array().cloned().unwrap_or_default();
+                let next = (last_i + 1).max(1) as usize;
+                if next <= steps.len() {
+                    let cls = if code == Some(124) { "hang" } else { "abort" };
+                    let a = &steps[next - 1];
+                    let ev = json!({"sc": sc["id"], "i": next, "a": a, "sql": vq::render::action(a), "out": cls, "cnt": 0, "rows": [],
+                                    "msg": format!("child exit {:?}", code), "st": {}, "cfg": cfg.name, "o": {"k": "panic", "a": 0, "n": 0}});
+                    vq::write_line(&mut w, &ev);
+                    n += 1;
+                }
+            }
+        }
+        eprintln!("vq-run (isolated): {} scenarios, {} events", scen.len(), n);
+        return;
+    }
     let mut eng = Engine::new(cfg);
     let mut n = 0usize;
     for sc in &scen {
@@ -48,6 +102,10 @@ fn main() {
                 ev["sc"] = id.clone();
                 ev["i"] = json!(k + 1);
                 vq::write_line(&mut w, &ev);
+                if flush {
+                    use std::io::Write;
+                    let _ = w.flush();
+                }
                 n += 1;
             }
         }
